@@ -87,7 +87,15 @@ func (s *Schema) generateExample() ([]byte, error) {
 	return append([]byte(nil), ex...), nil
 }
 
-func (s *Schema) doGenerateExample() ([]byte, error) {
+func (s *Schema) doGenerateExample() (_ []byte, err error) {
+	defer func() {
+		// The generator panics on a pattern which nothing can match (ex: an
+		// empty character class).
+		if r := recover(); r != nil {
+			err = errors.NewDocumentError(s.file, errors.Format(errors.ErrRegexInvalid, s.file.Content()))
+		}
+	}()
+
 	g, err := s.generatorOnce.Do(func() (*reggen.Generator, error) {
 		g, err := reggen.NewGenerator(s.pattern)
 		if err != nil {
